@@ -83,4 +83,31 @@ ImplSizedAccepts(s, x, flag, D) ==
            emin2 == IF (IF crossed THEN r.rmax ELSE r.rmin) THEN [on |-> FALSE] ELSE emin
            emax2 == IF (IF crossed THEN r.rmin ELSE r.rmax) THEN [on |-> FALSE] ELSE emax
        IN InRange(r.ty, x) /\ ~NumCheckRejects(min2, max2, emin2, emax2, Nil, x, TRUE, D)
+
+\* Deviation "SizedSharedNodeRevisited": the removal above is written INTO the schema node (PrimitiveTypeFromJSONSchemaType
+\* nils the keywords through pointers). A node that is generated a second time -- a property of a definition that an
+\* allOf merge shares by pointer with the definition itself -- is typed and checked from what the first visit left.
+ImplSizedAcceptsRevisited(s, x, D) ==
+  LET min == PMin(s)  max == PMax(s)
+      emin == PEx(s, "exclusiveMinimum")  emax == PEx(s, "exclusiveMaximum")
+      r == MinIntType(min, max, emin, emax, D)
+      min2  == IF r.rmin THEN Nil ELSE min
+      max2  == IF r.rmax THEN Nil ELSE max
+      emin2 == IF r.rmin THEN [on |-> FALSE] ELSE emin
+      emax2 == IF r.rmax THEN [on |-> FALSE] ELSE emax
+      q == MinIntType(min2, max2, emin2, emax2, D)
+      min3  == IF q.rmin THEN Nil ELSE min2
+      max3  == IF q.rmax THEN Nil ELSE max2
+      emin3 == IF q.rmin THEN [on |-> FALSE] ELSE emin2
+      emax3 == IF q.rmax THEN [on |-> FALSE] ELSE emax2
+  IN InRange(q.ty, x) /\ ~NumCheckRejects(min3, max3, emin3, emax3, Nil, x, TRUE, D)
+\* a property n of a definition N reached through x: {allOf: [{$ref N}, {...}]}: the value at x.n
+ImplSharedPos(d, leaf, flag, D) ==
+  /\ ObjHas(d, "x") /\ ObjVal(d, "x").t = "obj"
+  /\ LET xo == ObjVal(d, "x") IN
+     \/ ~ObjHas(xo, "n") \/ ObjVal(xo, "n").t = "null"
+     \/ LET v == ObjVal(xo, "n") IN
+        /\ v.t \in {"num", "big"} /\ IsIntegral(v)
+        /\ IF flag /\ "SizedSharedNodeRevisited" \in D THEN ImplSizedAcceptsRevisited(leaf, v, D)
+           ELSE ImplSizedAccepts(leaf, v, flag, D)
 =============================================================================
